@@ -201,19 +201,15 @@ Section Refs.
     destruct (filter (fun r => in_fileb r a) roots); simpl in *; [contradiction | lia].
   Qed.
 
-  Variable po : addr -> N.
-
   Lemma trav_cat s r sh : trav cat s r = Some sh -> cat_get cat r = Some sh.
   Proof. unfold trav. destruct (cat_get cat r); [|discriminate]. destruct (_ && _); congruence. Qed.
 
-  (** [register] keeps the invariant *)
-  Lemma RC_register x r : RC (ci x) -> RC (ci (register cat x r)).
+  (** registration keeps the invariant *)
+  Lemma RC_register_ci c r sh : RC c -> cat_get cat r = Some sh -> RC (register_ci c r sh).
   Proof.
-    intros [Hd Hc]. unfold register.
-    destruct (registered (ci x) r) eqn:Er; [now split|].
-    destruct (trav cat (ls x) r) as [sh|] eqn:Et; [|now split].
-    apply trav_cat in Et.
-    assert (Hn : ~ In r (keys (ci_hash (ci x)))) by (rewrite <- registered_In; congruence).
+    intros [Hd Hc] Et. unfold register_ci.
+    destruct (registered c r) eqn:Er; [now split|].
+    assert (Hn : ~ In r (keys (ci_hash c))) by (rewrite <- registered_In; congruence).
     split; simpl.
     - now apply (NoDupKeys_ainsert cmp_bytes cmp_bytes_eq).
     - intros a. unfold cnt, refs; simpl.
@@ -221,6 +217,28 @@ Section Refs.
       rewrite cnt_fold_put by apply NoDup_cidset.
       rewrite nfiles_ainsert_new by exact Hn.
       unfold in_fileb at 1. rewrite Et. specialize (Hc a). unfold cnt, refs in Hc. rewrite Hc. apply N.add_comm.
+  Qed.
+
+  Lemma RC_register x r : RC (ci x) -> RC (ci (register cat x r)).
+  Proof.
+    intros H. unfold register. destruct (trav cat (ls x) r) as [sh|] eqn:Et; [|exact H].
+    simpl. apply RC_register_ci; [exact H | now apply (trav_cat (ls x))].
+  Qed.
+
+  Lemma registered_register_same c r sh : registered (register_ci c r sh) r = true.
+  Proof.
+    unfold register_ci. destruct (registered c r) eqn:E; [exact E|].
+    unfold registered, ahas; simpl. now rewrite (alookup_ainsert_same cmp_bytes cmp_bytes_eq).
+  Qed.
+  Lemma registered_register_other c r sh b : b <> r -> registered (register_ci c r sh) b = registered c b.
+  Proof.
+    intros H. unfold register_ci. destruct (registered c r); [reflexivity|].
+    unfold registered, ahas; simpl. now rewrite (alookup_ainsert_other cmp_bytes cmp_bytes_eq) by exact H.
+  Qed.
+  Lemma registered_register_mono c r sh b : registered c b = true -> registered (register_ci c r sh) b = true.
+  Proof.
+    intros H. destruct (list_eq_dec N.eq_dec b r) as [->|Hn]; [apply registered_register_same|].
+    now rewrite registered_register_other.
   Qed.
 
   Lemma mem_addr_perm a l1 l2 : mem_addr a (l1 ++ l2) = mem_addr a (l2 ++ l1).
